@@ -230,7 +230,7 @@ def run(tier, seed):
             run.add_function(ST, nd.name, hashlib.sha256(ast.unparse(nd).encode()).hexdigest()[:16], {"note": "real function executed with uninterpreted distribution functions"})
     try:
         items, detail = conformance()
-        vs = report.discharge_alg([(n_, e, ST, "post") for n_, e in items], budget=40)
+        vs = report.discharge_alg([(n_, e, ST, "post") for n_, e in items], budget=150)
         from sympy.core.function import AppliedUndef
         exprs = dict(items)
         for v in vs:
